@@ -55,6 +55,35 @@ def _tied_skeletons(tier):
     g.output(g.fc(b, 'y', bias=False, w_idx=w3))
     return mb.build()
   out['const_3_consumers'] = three(True)
+
+  def float_int_tie(two_subgraphs):
+    # the converter stores constants with identical BYTES once, whatever
+    # their dtype: a float32 bias and an int32 shape tensor on one buffer
+    mb = skeletons.ModelBuilder()
+    g = mb.subgraph('g1')
+    x = g.input('x', (1, 2))
+    shape_bytes = np.array([1, 2], np.int32)
+    y = g.fc(x, 'fc')
+    bias = g.sg.operators[-1].inputs[2]
+    buf = g.sg.tensors[bias].buffer
+    mb.model.buffers[buf].data = np.frombuffer(shape_bytes.tobytes(),
+                                               dtype=np.uint8)
+    if two_subgraphs:
+      g.output(y)
+      g2 = mb.subgraph('g2')
+      x2 = g2.input('x2', (2, 1))
+      r = g2.reshape(x2, 'r2', (1, 2))
+      g2.sg.tensors[g2.sg.operators[-1].inputs[1]].buffer = buf
+      g2.output(g2.unary('TANH', r, 'y2'))
+      mb.signature('first', g, ['x'], ['y'])
+      mb.signature('second', g2, ['x'], ['y'])
+    else:
+      r = g.reshape(y, 'r', (1, 2))
+      g.sg.tensors[g.sg.operators[-1].inputs[1]].buffer = buf
+      g.output(r)
+    return mb.build()
+  out['float_bias_and_int_shape_one_buffer'] = float_int_tie(False)
+  out['float_bias_and_int_shape_two_subgraphs'] = float_int_tie(True)
   if tier == 'thorough':
     out['buffer_3_tensors'] = three(False)
   return out
@@ -67,8 +96,7 @@ def sharer_ops(model):
   for si, sg in enumerate(model.subgraphs):
     for oi, op in enumerate(sg.operators):
       for i in op.inputs:
-        if i >= 0 and oracles.has_data(model, sg.tensors[i]) and \
-            sg.tensors[i].type == TT.FLOAT32:
+        if i >= 0 and oracles.has_data(model, sg.tensors[i]):
           uses.setdefault(sg.tensors[i].buffer, []).append((si, oi))
   res = []
   for b, lst in uses.items():
@@ -155,15 +183,29 @@ def shared_constant_problems(inp, out):
                     f"tensor's own parameters is off by up to "
                     f'{float(np.max(err / step)):.2f} steps from the '
                     'original (quantized twice / foreign parameters?)')
-  # every tensor on one buffer must agree on dtype and parameters
-  for si, go in enumerate(out.subgraphs):
-    pass
+  # constants that are not float (shapes, axes, indices) are never quantized:
+  # same type, same bytes
+  for si, (gi, go) in enumerate(zip(inp.subgraphs, out.subgraphs)):
+    for ti, t0 in enumerate(gi.tensors):
+      if t0.type == TT.FLOAT32 or not oracles.has_data(inp, t0):
+        continue
+      t1 = go.tensors[ti]
+      nm = oracles.tname(t0)
+      a, b = oracles.buffer_bytes(inp, t0), oracles.buffer_bytes(out, t1)
+      if t1.type != t0.type:
+        pr.append(f'constant {nm!r}: non-float constant changed type '
+                  f'{t0.type} -> {t1.type}')
+      elif not isinstance(b, (bytes, bytearray)) or bytes(a) != bytes(b):
+        pr.append(f'constant {nm!r} (type {t0.type}): its bytes changed '
+                  '(a sharer of its buffer was quantized in place)')
+  # tensors that shared a buffer AND a dtype in the input must agree on dtype
+  # and parameters for the same bytes in the output
   by_buf = {}
-  for si, go in enumerate(out.subgraphs):
-    for t in go.tensors:
-      if oracles.has_data(out, t):
-        by_buf.setdefault(t.buffer, []).append(t)
-  for b, ts in by_buf.items():
+  for si, (gi, go) in enumerate(zip(inp.subgraphs, out.subgraphs)):
+    for ti, t in enumerate(go.tensors):
+      if oracles.has_data(out, t) and ti < len(gi.tensors):
+        by_buf.setdefault((t.buffer, gi.tensors[ti].type), []).append(t)
+  for (b, _), ts in by_buf.items():
     if len(ts) < 2:
       continue
     def key(t):
